@@ -47,7 +47,7 @@ ASSUMPTIONS = [
     "with the dominated filter on zero-duration instances the available set is the library's "
     "own list, validated as a non-empty sub-list of the ready operations",
 ]
-REQUIRED_COUNTERS = {"steps_checked": 2000, "solver_runs": 200, "call_metadata_checks": 50,
+REQUIRED_COUNTERS = {"cross_rule_evaluations": 1000, "steps_checked": 2000, "solver_runs": 200, "call_metadata_checks": 50,
                      "composed_rule_steps": 200, "mwkr_twin_states": 200,
                      "rule_shortest_processing_time": 20, "rule_first_come_first_served": 20,
                      "rule_most_work_remaining": 20, "rule_most_operations_remaining": 20,
@@ -341,6 +341,63 @@ def run_solver_case(ctx, case):
     ctx.count("class_" + inst["cls"])
 
 
+def judge_all_rules(ctx, run, rng):
+    """Evaluates every built-in rule (and two score-based ones) in a random order in the
+    current state and judges each answer - so a side effect of one rule's queries on
+    another rule's answer becomes visible."""
+    from job_shop_lib.dispatching.rules import (
+        shortest_processing_time_rule, first_come_first_served_rule, most_work_remaining_rule,
+        most_operations_remaining_rule, random_operation_rule, score_based_rule,
+        most_operations_remaining_score, shortest_processing_time_score)
+    r, d = run.r, run.d
+    rules = [("shortest_processing_time", shortest_processing_time_rule),
+             ("first_come_first_served", first_come_first_served_rule),
+             ("most_work_remaining", most_work_remaining_rule),
+             ("most_operations_remaining", most_operations_remaining_rule),
+             ("random", random_operation_rule),
+             ("score:mor", score_based_rule(most_operations_remaining_score)),
+             ("score:spt", score_based_rule(shortest_processing_time_score))]
+    rng.shuffle(rules)
+    if run.exact_filters:
+        avail = r.available(run.filter_names)
+        now = r.min_start(avail)
+    else:
+        avail = [o.operation_id for o in d.available_operations()]
+        now = r.min_start(avail)
+    unsched = [len(ids) - n for ids, n in zip(r.job_ops, r.job_next)]
+    ongoing = [0] * r.num_jobs
+    for o in r.ongoing(now):
+        ongoing[r.op_job[o]] += 1
+    order_names = [n for n, _ in rules]
+    for name, fn in rules:
+        op = fn(d)
+        ctx.count("cross_rule_evaluations")
+        w = {"rule": name, "evaluated_in_order": order_names, "history": list(r.history),
+             "filter": run.filter_names, "available": avail,
+             "selected": getattr(op, "operation_id", repr(op))}
+        if not any(op is run.op(a) for a in avail):
+            ctx.violation("c04_selected_operation_not_available", w)
+            continue
+        oid = op.operation_id
+        if name in ("shortest_processing_time", "score:spt"):
+            vals = {o: -r.op_dur[o] for o in avail}
+        elif name == "first_come_first_served":
+            vals = {o: -r.op_pos[o] for o in avail}
+        elif name == "most_work_remaining":
+            rem = [sum(r.op_dur[o] for o in ids[n:]) for ids, n in zip(r.job_ops, r.job_next)]
+            vals = {o: rem[r.op_job[o]] for o in avail}
+        elif name in ("most_operations_remaining", "score:mor"):
+            a = {o: unsched[r.op_job[o]] for o in avail}
+            b = {o: unsched[r.op_job[o]] + ongoing[r.op_job[o]] for o in avail}
+            if not (a[oid] == max(a.values()) or b[oid] == max(b.values())):
+                ctx.violation("c04_selection_not_best_under_rule", dict(w, values=[a, b]))
+            continue
+        else:
+            continue
+        if vals[oid] != max(vals.values()):
+            ctx.violation("c04_selection_not_best_under_rule", dict(w, values=vals))
+
+
 def run_mwkr_twin(ctx, case):
     from job_shop_lib.dispatching.rules import (most_work_remaining_rule,
                                                 observer_based_most_work_remaining_rule)
@@ -350,6 +407,8 @@ def run_mwkr_twin(ctx, case):
     order = rng.random() < 0.5
     while not run.done():
         ctx.count("mwkr_twin_states")
+        if rng.random() < 0.5:
+            judge_all_rules(ctx, run, rng)
         if order:
             a = most_work_remaining_rule(run.d); b = observer_based_most_work_remaining_rule(run.d)
         else:
